@@ -12,6 +12,8 @@
 // See the License for the specific language governing permissions and
 // limitations under the License.
 
+#pragma once
+
 #include "au/constant.hh"
 #include "au/units/joules.hh"
 #include "au/units/seconds.hh"
